@@ -63,6 +63,11 @@ pub fn vguardif(Ghost(g): Ghost<bool>, c: bool)
 // R3d: is this a build with debug assertions?  (no contract: both answers are verified)
 #[verifier::external_body]
 pub fn vdebug() -> bool { cfg!(debug_assertions) }
+// R3u: unwrap() as a guard
+#[verifier::external_body]
+pub fn result_unwrap_guard<T, E>(r: core::result::Result<T, E>) -> (v: T)
+    ensures r is Ok, r matches Ok(x) && x == v,
+{ match r { Ok(x) => x, Err(_) => panic!() } }
 pub fn vunreachable()
     requires false, // [C07]
 {}
